@@ -135,7 +135,50 @@ def check_sequence(seq, blank='none'):
                 v.append(('rejected-at-wrong-section',
                           '%r: records %r, expected rejection of #%d'
                           % (seq, [x['section'] for x in recs], k)))
+    if blank == 'none' and not v and len(seq) <= 8:
+        v.extend(check_reiteration(seq, data, recs, exc))
     return v, k is None
+
+
+def check_reiteration(seq, data, recs, exc):
+    """The same reader object iterated again over the rewound stream (after
+    one record, and after a complete pass) accepts / rejects exactly like
+    a fresh reader (line numbers are not compared: the pinned reader keeps
+    counting)."""
+    import io
+    from pydiffx.reader import DiffXReader
+    want = ([x['section'] for x in recs], type(exc).__name__)
+    v = []
+    for first in ('one', 'all'):
+        fp = io.BytesIO(data)
+        r = DiffXReader(fp)
+        try:
+            it = iter(r)
+            if first == 'one':
+                next(it)
+            else:
+                for _ in it:
+                    pass
+        except BaseException as e:
+            if isinstance(e, (KeyboardInterrupt, SystemExit)):
+                raise
+        fp.seek(0)
+        got = []
+        gexc = None
+        try:
+            for x in r:
+                got.append(x['section'])
+        except BaseException as e:
+            if isinstance(e, (KeyboardInterrupt, SystemExit)):
+                raise
+            gexc = e
+        if (got, type(gexc).__name__) != want:
+            v.append(('second-iteration-differs:after-%s' % first,
+                      '%r: a reader iterated again after %s record(s) gave '
+                      '%r / %r, a fresh reader %r' % (seq, first, got, gexc,
+                                                     want)))
+            break
+    return v
 
 
 def depth_for(tier):
@@ -187,7 +230,10 @@ def plan(tier):
                 'and bodies a real producer writes (encodings on containers, '
                 'indent / mimetype / dos preambles, binary / dos / UTF-16 '
                 'diffs); each is '
-                'read by the real DiffXReader; the same successor sweep far '
+                'read by the real DiffXReader; for sequences of <= 8 sections '
+                'the same reader object is iterated again over the rewound '
+                'stream (after one record / after a full pass) and must '
+                'accept and reject like a fresh one; the same successor sweep far '
                 'into a file (after a body of 1023 .. 300000 (thorough '
                 '3000000) lines at every boundary size, and after 400 .. '
                 '4000 sections); plus explicit-state closure of '
